@@ -25,10 +25,10 @@ RULE = (
 ASSUMPTIONS = [
     "the sandbox runs as root, so an unwritable directory cannot be produced; an uncreatable path (parent is a "
     "regular file) stands in for it",
-    "KeyFile.generate_key() (explicit regeneration API) is not part of the quantified histories",
+    "KeyFile.generate_key() (explicit regeneration API) is exercised only while no context is open on that path",
 ]
 REQUIRED = ["op:enter", "op:exit", "op:encrypt", "op:decrypt", "op:external", "disk:absent", "disk:valid",
-            "disk:malformed", "enter:rejected", "enter:created", "outside-context-use", "exit:by-exception"]
+            "disk:malformed", "enter:rejected", "enter:created", "outside-context-use", "exit:by-exception", "op:genkey"]
 LEVEL_TEXT = (
     "Generated histories against an explicit reference model of the key-file life cycle, invariant checked after "
     "every step; shows the property on the explored histories and kills the listed mutants (key kept after "
@@ -69,6 +69,7 @@ def strategy(tier):
                                "text": st.binary(max_size=40)}),
         st.fixed_dictionaries({"op": st.just("decrypt"), "obj": idx, "ct": idx}),
         st.fixed_dictionaries({"op": st.just("external"), "path": st.integers(0, 1), "content": content}),
+        st.fixed_dictionaries({"op": st.just("genkey"), "obj": idx}),
     )
     return st.fixed_dictionaries({
         "init": st.lists(content, min_size=2, max_size=2),
@@ -282,6 +283,30 @@ def run_case(case, R):
                     except Exception as exc:
                         inuse = exc
                     R.check(inuse == o.key, "key-in-use", "inner-exit", lambda: "after an inner exit the key in use is %r, not %r" % (inuse, o.key))
+            elif name == "genkey":
+                # the public regeneration call: writes a new 32-byte key file; it hands no key to the caller and opens no
+                # context, so an object without an open context still holds nothing afterwards
+                if any(x.path == pi and x.depth > 0 for x in objs):
+                    continue  # (what a key change under an open session means for that session is not stated)
+                R.label("op:genkey")
+                try:
+                    o.real.generate_key()
+                    err = None
+                except Exception as exc:
+                    err = exc
+                if disk[pi] == "uncreatable":
+                    R.check(err is not None, "uncreatable-accepted", "genkey", "generate_key succeeded although the key file cannot be created")
+                elif R.check(err is None, "create-failed", "genkey", "generate_key raised %r" % (err,)):
+                    now = read_disk(pi)
+                    if R.check(now is not None and len(now) == 32, "create-once", "genkey", "generate_key left %r in the key file" % (now,)):
+                        disk[pi] = now
+                        o.last_key = now
+                        created[pi] = True
+                try:
+                    got = o.real.encrypt(ZERO, method="xor")
+                    R.fail("context-only", "encrypt-after-genkey", "encrypt outside any open context returned %r right after generate_key()" % (got,))
+                except Exception:
+                    R.checks += 1
             elif name == "encrypt":
                 R.label("op:encrypt")
                 try:
